@@ -737,14 +737,6 @@ theorem transformSse2_eq (H : Sha256.Regs) (block : Bytes) (h : block.length = 6
     transformSse2 H block = some (Sha256.compress H block) := by
   simp [transformSse2, sse2W_eq block h, Sha256.compress]
 
-theorem absorbSse2_eq (H : Sha256.Regs) (blocks : List Bytes) (h : ∀ b ∈ blocks, b.length = 64) :
-    absorbSse2 H blocks = some (blocks.foldl Sha256.compress H) := by
-  induction blocks generalizing H with
-  | nil => rfl
-  | cons b rest ih =>
-    simp only [absorbSse2, transformSse2_eq H b (h b (by simp)), List.foldl_cons]
-    exact ih _ (fun b' hb' => h b' (by simp [hb']))
-
 /-! ## SHA-NI -/
 
 theorem be32dec_128_eq (b0 b1 b2 b3 b4 b5 b6 b7 b8 b9 b10 b11 b12 b13 b14 b15 : UInt8) :
